@@ -395,7 +395,17 @@ def r6_pair_adapters(repo, report):
               why=(f"the recorded pair is {foreign[0]}: a match object that need not stem from this rank's adapter (its .adapter, and with it the adapter name used for {{name}} and the statistics, may be another one)" if foreign else ""))
     if foreign:
         return
-    mism, n, _ = check_table(rows, roles, expected, outcome)
+    try:
+        mism, n, _ = check_table(rows, roles, expected, outcome)
+    except Unrecognised as u:
+        # a decision that also looks at the score or the errors of ONE mate (against the best pair's) - quantities that
+        # the two totals do not determine: every value can occur together with every row of the table, so a different
+        # outcome for some value is a wrong choice, not an unknown shape
+        extras = {k for r in rows for k in r.valuation if k not in {ro.key for ro in roles.values()}}
+        single = re.compile(r"^sign:(?:[-+]?(?:\d+\*)?(?:AD[12]\.match_to\(SEQ[12]\)\.(?:score|errors)|B_\w+(?:\[\d\])?(?:\.(?:score|errors))?|\d+))+$")
+        if not extras or not all(single.match(k.replace(" ", "")) for k in extras):
+            raise u
+        mism, n, _ = check_table(rows, roles, expected, outcome, independent_extras=True)
     report.saw(function="PairedAdapterCutter._find_best_match_pair", valuations=len(rows))
     report.ob("C05.R6", "PairedAdapterCutter._find_best_match_pair", not mism, facts={"rows": len(rows), "mismatches": mism[:3]},
               expected="candidate only if both mates match; replace iff first, higher summed score, or equal score and fewer summed errors (first wins ties)", loc=repo.loc(fb), cases=n, why=str(mism[0]) if mism else "")
